@@ -234,10 +234,22 @@ def run(ctx):
         for n in astx.walk_fn(ap.node):
             if isinstance(n, ast.Assign) and isinstance(n.targets[0], ast.Attribute) and isinstance(n.targets[0].value, ast.Name):
                 stores[n.targets[0].attr.lstrip("_")] = n
+        # the fields may also be handed to the constructor:  ProposalEdge(topology=..., motif_id=..., new_edge=...)
+        ctor_calls = [n for n in astx.walk_fn(ap.node) if isinstance(n, ast.Call) and txt(n.func).split(".")[-1] == "ProposalEdge"]
+        ctor_opaque = False
+        for cc in ctor_calls:
+            if cc.args or any(k.arg is None for k in cc.keywords):
+                ctor_opaque = True
+            for k in cc.keywords:
+                if k.arg is not None and k.arg.lstrip("_") not in stores:
+                    synth = ast.copy_location(ast.Assign(targets=[ast.Attribute(value=ast.Name(id="p", ctx=ast.Load()), attr=k.arg, ctx=ast.Store())], value=k.value, lineno=cc.lineno, col_offset=cc.col_offset), cc)
+                    stores[k.arg.lstrip("_")] = synth
         want = {"topology": f"{pG}.edges[{pOLD}][NetworkNames.TOPOLOGY]", "motif_id": f"{pG}.edges[{pOLD}][NetworkNames.MOTIF_IDS]"}
         for fld, w in want.items():
             st = stores.get(fld)
-            if st is None:
+            if st is None and (ctor_opaque or not ctor_calls):
+                o.undecided(f"how the proposal's {fld} is set was not recognised", ap)
+            elif st is None:
                 o.violated(ap, ap.node, f"the proposal's {fld} is never set: the new edge loses its annotation")
             elif txt(asc.resolve(st.value)) == w:
                 o.holds(ap, st, f"proposal.{fld} <- G.edges[old_edge][{w.split('.')[-1][:-1]}]")
@@ -252,7 +264,9 @@ def run(ctx):
                 app_st[rules.enum_member(n.targets[0].slice, "NetworkNames")] = n
         for mem, fld in (("TOPOLOGY", "topology"), ("MOTIF_IDS", "motif_id")):
             st = app_st.get(mem)
-            if st is None:
+            if st is None and any(isinstance(n, ast.Call) and isinstance(n.func, ast.Attribute) and n.func.attr == "add_edge" and n.keywords for n in astx.walk_fn(rw.node)):
+                o.undecided(f"new edges are added with keyword attributes: the {mem} annotation was not recognised", rw)
+            elif st is None:
                 o.violated(rw, rw.node, f"new edges are added without their {mem} annotation")
             elif txt(st.value).split(".")[-1].lstrip("_") == fld:
                 o.holds(rw, st, f"new edge's {mem} <- proposal.{fld}")
